@@ -782,6 +782,9 @@ func (wk *WrappedKey) FromBytesCrypt(plain []byte) error {
 	// Any WrappedKey has a StaticKey at the beginning of the plain text.
 	wk.StaticKey.KeyBytes = plain[:StaticKeyBytesTotal]
 
+	// What wk held before is replaced, also by nothing
+	wk.MetaData.Type, wk.MetaData.Payload = 0, nil
+
 	// Any WrappedKey may have a MetaData.Type between StaticKey and MetaData in the plain text.
 	if len(plain) > StaticKeyBytesTotal {
 		wk.MetaData.Type = plain[StaticKeyBytesTotal]
